@@ -1,0 +1,27 @@
+//go:build verif
+
+package stream
+
+// Contracts for govc, the contract verifier under /verif (see /verif/DESIGN.md).
+// This file is compiled only with -tags verif and contains no executable code
+// that the package calls: the //@ lines are machine-checked specifications of
+// the functions of this package.
+
+//@ const MAXCTR := 309485009821345068724781055
+//@ pred ctr(n) := n[0]*1208925819614629174706176 + n[1]*4722366482869645213696 + n[2]*18446744073709551616 + n[3]*72057594037927936 + n[4]*281474976710656 + n[5]*1099511627776 + n[6]*4294967296 + n[7]*16777216 + n[8]*65536 + n[9]*256 + n[10]
+
+//@ func incNonce
+//@   loop 1 unroll
+//@   requires#nowrap ctr(nonce) != MAXCTR                        [C14]
+//@   ensures#ctr ctr(nonce) == old(ctr(nonce)) + 1               [C02 C05 C06]
+//@   ensures#flag nonce[11] == old(nonce[11])                    [C02 C05 C06]
+//@   modifies *nonce
+
+//@ func setLastChunkFlag
+//@   ensures#flag nonce[11] == 1                                 [C02 C05 C06]
+//@   ensures#ctr ctr(nonce) == old(ctr(nonce))                   [C02 C05 C06]
+//@   modifies *nonce
+
+//@ func nonceIsZero
+//@   ensures#iff result <==> (forall j in 0..12 :: nonce[j] == 0)  [C02 C05]
+//@   modifies nothing
